@@ -229,6 +229,12 @@ pub fn c05_indexopt_extend3() {
     container_seq::<IndexOptimized, K>(IndexOptimized::default(), true, usize::MAX);
 }
 
+// @h prop=C05 tier=quick kind=proof engine=both inst="IndexOptimized" bounds="one extend of 2 unconstrained values (a first value the stride rejects followed by one it accepts is in the query)" desc="extend == repeated push: order, len, index, iter vs model"
+#[cfg_attr(kani, kani::proof, kani::unwind(5))]
+pub fn c05_indexopt_extend2() {
+    container_seq::<IndexOptimized, 2>(IndexOptimized::default(), true, usize::MAX);
+}
+
 // @h prop=C05 tier=quick kind=proof engine=both inst="IndexList<Vec<u32>,Vec<u64>>" bounds="3 unconstrained usize pushes" desc="u32/u64 split faithful, large-before-small and small-before-large"
 #[cfg_attr(kani, kani::proof, kani::unwind(5))]
 pub fn c05_indexlist_seq3() {
@@ -328,4 +334,40 @@ pub fn c05_indexlist_seq3_clear1() {
 #[cfg_attr(kani, kani::proof, kani::unwind(5))]
 pub fn c05_indexlist_seq3_clear2() {
     container_seq::<IndexList<Vec<u32>, Vec<u64>>, K>(IndexList::default(), false, 2);
+}
+
+/// A container in the given mode (concrete prefix) is cleared; afterwards it must behave like a fresh one for two
+/// unconstrained pushes (nothing of the stride or of the spill survives).
+fn indexopt_clear_after_prefix(prefix: &[usize]) {
+    let mut c = IndexOptimized::<Vec<u32>, Vec<u64>>::default();
+    for &p in prefix {
+        c.push(p);
+    }
+    c.clear();
+    assert!(Storage::len(&c) == 0 && Storage::is_empty(&c) && c.iter().next().is_none(), "C05: clear does not empty the container");
+    let vals = sym::words::<2>();
+    let mut m = [0usize; 2];
+    let mut n = 0;
+    while n < 2 {
+        c.push(vals[n]);
+        m[n] = vals[n];
+        n += 1;
+        assert!(Storage::len(&c) == n, "C05: len after clear differs from the number of pushes");
+        let mut j = 0;
+        while j < n {
+            assert!(c.index(j) == m[j], "C05: index(j) after clear differs from the j-th pushed value");
+            j += 1;
+        }
+    }
+    cover!(true, "end reached");
+    sym::forget(c);
+}
+
+// @h prop=C05 tier=quick kind=proof engine=both inst="IndexOptimized cleared in every mode" bounds="prefixes 0,3,6 (strided) / 0,3,6,6 (saturated) / 0,3,5 (stride + u32 spill) / 0,3,2^40 (stride + u64 spill), clear, 2 unconstrained pushes" desc="clear forgets the stride AND the spill whatever mode the container was in; the next values are stored as on a fresh container"
+#[cfg_attr(kani, kani::proof, kani::unwind(8))]
+pub fn c05_indexopt_clear_in_every_mode() {
+    indexopt_clear_after_prefix(&[0, 3, 6]);
+    indexopt_clear_after_prefix(&[0, 3, 6, 6]);
+    indexopt_clear_after_prefix(&[0, 3, 5]);
+    indexopt_clear_after_prefix(&[0, 3, 1 << 40]);
 }
